@@ -5,7 +5,7 @@
    protocol error.  (Used by the correspondence check on the IMPLEMENTATION's
    commands, and by theorem C01_history on the model's.) *)
 From Coq Require Import List NArith Bool Arith.
-From SNT Require Export Render.Cell Render.Screen Render.Frame.
+From SNT Require Export Render.Cell Render.Screen Render.Frame Render.Domain.
 Import ListNotations.
 
 (* the terminal side of one operation: execute the commands; a resize then replaces the cells *)
@@ -30,6 +30,54 @@ Fixpoint spec_run (o : oracle) (h w : nat) (scr : screen) (drawn : grid cell)
          | Resize h' w' _ => spec_run o h' w' scr' (gmake h' w' cell_default) ops' impl'
          | _ => spec_run o h w scr' (gmake h w cell_default) ops' impl'
          end
+  | _, _ => false
+  end.
+
+(* ---------- the same with the known classes OverlapImages / OverlapWideImage cut to their extent ----------
+   [spec_run] fails for good on a history that contains an overlapping surface.  [resume_run] judges
+   every history whose surfaces are in the domain ([in_domain]; overlaps allowed):
+     - mode [Some E]: judging.  Every frame of a surface without image overlap must display that
+       surface: same cells, no error, all its placements, and no placement besides them and the
+       leftovers E ([display_upto]; E = [] until an overlap happened: then this is [same_display]).
+     - a Frame of a surface WITH an image overlap (an image shares a cell with another image or a wide
+       character) suspends judging: mode [None].  Drawing such a surface without a frame (SkipFrame,
+       or overdrawn before the frame) suspends nothing.
+     - the next forced repaint - Clear, Renew or Resize - resumes judging, provided no command was a
+       protocol error meanwhile; what the terminal still places after the commands of that clear()
+       (images whose erase the overlap swallowed) becomes the leftover set E. *)
+Definition overlapping (o : oracle) (h w : nat) (s : grid cell) : bool := negb (no_image_overlap o h w s).
+
+Definition resumed (scr' : screen) (mode : option (list placement)) : option (list placement) :=
+  match mode with
+  | Some E => Some E
+  | None => if err scr' then None else Some (places scr')
+  end.
+
+Definition mode_ok (mode : option (list placement)) (scr' : screen) : bool :=
+  match mode with Some _ => negb (err scr') | None => true end.
+
+Fixpoint resume_run (o : oracle) (h w : nat) (scr : screen) (drawn : grid cell)
+         (mode : option (list placement)) (ops : list op) (impl : list (list cmd)) : bool :=
+  match ops, impl with
+  | [], [] => true
+  | x :: ops', cs :: impl' =>
+      let scr' := screen_step o scr x cs in
+      let blank := gmake h w cell_default in
+      match x with
+      | Draw g => mode_ok mode scr' && resume_run o h w scr' g mode ops' impl'
+      | Frame =>
+          match mode with
+          | Some E =>
+              if overlapping o h w drawn then resume_run o h w scr' blank None ops' impl'
+              else display_upto E scr' (show o h w drawn) && resume_run o h w scr' blank mode ops' impl'
+          | None => resume_run o h w scr' blank None ops' impl'
+          end
+      | SkipFrame => mode_ok mode scr' && resume_run o h w scr' blank mode ops' impl'
+      | Clear | Renew =>
+          mode_ok mode scr' && resume_run o h w scr' blank (resumed scr' mode) ops' impl'
+      | Resize h' w' _ =>
+          mode_ok mode scr' && resume_run o h' w' scr' (gmake h' w' cell_default) (resumed scr' mode) ops' impl'
+      end
   | _, _ => false
   end.
 
